@@ -549,3 +549,173 @@ func ruleCompoundOrder(c *Ctx, r *Report) {
 	// the first non-equal argument decides
 	r.analysed(rule, fname(cc))
 }
+
+// ---------------------------------------------------------------------------
+// R-COMPARE-RANGE (C08; added after seed C08b): the consumers of the standard order (sorts, compare/3,
+// the recursive comparison of arguments) test the result of Compare against the exact values -1 and 1.
+// As long as such an exact consumer exists, every function of the Compare family returns only -1, 0, 1
+// or the result of another member of the family. A difference (len(a)-len(b), a-b) has the right sign but
+// not the right value: the consumer then takes "greater by two" for "not greater".
+
+func (c *Ctx) compareFamily() map[*ssa.Function]bool {
+	fam := map[*ssa.Function]bool{}
+	isCmpSig := func(sig *types.Signature) bool {
+		if sig.Params().Len() != 2 || sig.Results().Len() != 1 {
+			return false
+		}
+		b, ok := sig.Results().At(0).Type().Underlying().(*types.Basic)
+		return ok && b.Kind() == types.Int && isEngNamed(sig.Params().At(0).Type(), "Term") && c.isEnvPtr(sig.Params().At(1).Type())
+	}
+	for _, fn := range c.LibFuncs() {
+		if fn.Parent() != nil {
+			continue
+		}
+		switch {
+		case fn.Name() == "Compare" && fn.Signature.Recv() != nil && isCmpSig(fn.Signature):
+			fam[fn] = true
+		case fn.Name() == "CompareCompound", fn.Name() == "CompareAtomic":
+			fam[fn] = true
+		case fn.Origin() != nil && fn.Origin().Name() == "CompareAtomic":
+			fam[fn] = true
+		}
+	}
+	// comparison callbacks handed to a family member (CompareAtomic's cmp)
+	for _, fn := range c.LibFuncs() {
+		eachInstr(fn, func(in ssa.Instruction) {
+			ci, ok := in.(ssa.CallInstruction)
+			if !ok {
+				return
+			}
+			callee := ci.Common().StaticCallee()
+			if callee == nil || !fam[callee] {
+				return
+			}
+			for _, a := range ci.Common().Args {
+				switch f := a.(type) {
+				case *ssa.MakeClosure:
+					fam[f.Fn.(*ssa.Function)] = true
+				case *ssa.Function:
+					if c.isLibPkg(funcPkg(f)) {
+						fam[f] = true
+					}
+				}
+			}
+		})
+	}
+	return fam
+}
+
+func ruleCompareRange(c *Ctx, r *Report) {
+	const rule = "R-COMPARE-RANGE"
+	fam := c.compareFamily()
+	famResult := func(v ssa.Value) bool {
+		call, _ := callOfValue(v)
+		if call == nil {
+			return false
+		}
+		if call.Call.IsInvoke() {
+			return call.Call.Method.Name() == "Compare"
+		}
+		if callee := call.Call.StaticCallee(); callee != nil {
+			if fam[callee] {
+				return true
+			}
+			if callee.Pkg != nil && (callee.Pkg.Pkg.Path() == "strings" || callee.Pkg.Pkg.Path() == "bytes") && callee.Name() == "Compare" {
+				return true
+			}
+			return false
+		}
+		// a call of a func-typed parameter of a family member (cmp)
+		if p, ok := call.Call.Value.(*ssa.Parameter); ok && fam[p.Parent()] {
+			return true
+		}
+		return false
+	}
+	// exact consumers
+	exact := 0
+	var exactAt []string
+	for _, fn := range c.LibFuncs() {
+		eachInstr(fn, func(in ssa.Instruction) {
+			bo, ok := in.(*ssa.BinOp)
+			if !ok {
+				return
+			}
+			switch bo.Op {
+			case token.EQL, token.NEQ, token.LSS, token.LEQ, token.GTR, token.GEQ:
+			default:
+				return
+			}
+			for _, pair := range [][2]ssa.Value{{bo.X, bo.Y}, {bo.Y, bo.X}} {
+				k, ok := constInt(pair[1])
+				if !ok || k == 0 {
+					continue
+				}
+				// `o < 1`, `o > -1`, `o <= -1`, `o >= 1` are sign tests in disguise only for values in range:
+				// count every comparison with a non-zero constant as exact.
+				isFam := false
+				for _, l := range c.originSet(pair[0]) {
+					if famResult(l) {
+						isFam = true
+					}
+				}
+				if isFam {
+					exact++
+					if len(exactAt) < 4 {
+						exactAt = append(exactAt, c.at(in))
+					}
+				}
+			}
+		})
+	}
+	// switch o { case -1: … } is lowered to the same BinOp EQL chain, so it is counted above.
+	if exact == 0 {
+		r.info(rule, "consumers", "-", "consumers of Compare test exact values", "no consumer compares a Compare result with a non-zero constant: any value of the right sign would do; producers not constrained")
+		r.analysed(rule, fmt.Sprintf("%d family members, no exact consumer", len(fam)))
+		return
+	}
+	r.ok(rule, "consumers/exact", exactAt[0], "consumers of the standard order test exact values", fmt.Sprintf("%d comparisons of a Compare result with -1 or 1 (e.g. %s)", exact, strings.Join(exactAt, ", ")), false)
+	var fns []*ssa.Function
+	for fn := range fam {
+		fns = append(fns, fn)
+	}
+	sort.Slice(fns, func(i, j int) bool { return fname(fns[i]) < fname(fns[j]) })
+	for _, fn := range fns {
+		nret := 0
+		eachInstr(fn, func(in ssa.Instruction) {
+			ret, ok := in.(*ssa.Return)
+			if !ok || len(ret.Results) != 1 {
+				return
+			}
+			nret++
+			key := fmt.Sprintf("%s/return#%d", fname(fn), nret)
+			desc := "a member of the Compare family returns -1, 0, 1 or another member's result"
+			var bad ssa.Value
+			var check func(v ssa.Value, depth int)
+			check = func(v ssa.Value, depth int) {
+				for _, l := range c.originSet(v) {
+					if k, ok := constInt(l); ok {
+						if k < -1 || k > 1 {
+							bad = l
+						}
+						continue
+					}
+					if famResult(l) {
+						continue
+					}
+					if u, ok := l.(*ssa.UnOp); ok && u.Op == token.SUB && depth < 3 {
+						check(u.X, depth+1) // -o
+						continue
+					}
+					bad = l
+				}
+			}
+			check(ret.Results[0], 0)
+			if bad == nil {
+				r.ok(rule, key, c.at(in), desc, "all origins are in {-1,0,1} or family results", true)
+			} else {
+				r.bad(rule, fmt.Sprintf("%s/return", fname(fn)), c.at(in), desc, "may return "+valName(bad)+": a value outside {-1,0,1} is misread by the consumers that test == -1 / == 1")
+			}
+		})
+	}
+	r.analysed(rule, fmt.Sprintf("%d family members, %d exact consumers", len(fam), exact))
+}
